@@ -427,3 +427,55 @@ Proof.
       * intros b. pose proof (count_lt_le (target2 flt (lo - lu)) crit) as Hc.
         destruct (count_lt _ crit) as [|i] eqn:Ei; [discriminate|]. intros Eb. injection Eb as <-. unfold item in *. lia.
 Qed.
+
+(* ---------- under the contract VnBest answers Ok ---------- *)
+
+Lemma nearest_no_err crit p over t2 : forall f a b e, nearest f crit p over t2 a b <> Err e.
+Proof.
+  induction f as [|f IH]; intros a b e H; cbn [nearest] in H; [discriminate|].
+  destruct a as [a|], b as [b|]; cbv beta iota zeta in H.
+  - destruct (nth_opt crit a) as [ca|]; [|discriminate]. destruct (nth_opt crit b) as [cb|]; [|discriminate].
+    destruct (2 * fst ca - t2 <? t2 - 2 * fst cb); cbv beta iota zeta in H.
+    + destruct (nth_opt crit a) as [cc|]; [|discriminate]. destruct (nth_opt p (snd cc)); [|discriminate].
+      destruct (_ =? over)%N; [discriminate|]. exact (IH _ _ _ H).
+    + destruct (nth_opt crit b) as [cc|]; [|discriminate]. destruct (nth_opt p (snd cc)); [|discriminate].
+      destruct (_ =? over)%N; [discriminate|]. exact (IH _ _ _ H).
+  - destruct (nth_opt crit a) as [cc|]; [|discriminate]. destruct (nth_opt p (snd cc)); [|discriminate].
+    destruct (_ =? over)%N; [discriminate|]. exact (IH _ _ _ H).
+  - destruct (nth_opt crit b) as [cc|]; [|discriminate]. destruct (nth_opt p (snd cc)); [|discriminate].
+    destruct (_ =? over)%N; [discriminate|]. exact (IH _ _ _ H).
+  - discriminate.
+Qed.
+
+Lemma vnbest_no_error : forall flt ws p e, length ws = length p -> Forall (fun w => 0 <= w) ws ->
+  vn_best flt ws p <> Err e.
+Proof.
+  intros flt ws p e Hl Hnn E.
+  destruct (vn_best_inv _ _ _ _ E) as [[C _]|[[_ [C _]]|[_ [_ [C|[Hk C]]]]]];
+    [contradiction|contradiction|discriminate|].
+  rewrite iter_pos_nat in C.
+  destruct (iter_nat (vb_step0 flt (rev (sort_items_desc (items_of ws)))) _ _) as [?|r] eqn:Hr; [discriminate|].
+  subst r.
+  destruct (iter_nat_inv (vb_step0 flt (rev (sort_items_desc (items_of ws)))) (fun _ => True)
+              (fun _ _ _ _ => I) _ _ _ I Hr) as [[[p1 L1] n1] [_ E1]].
+  unfold vb_step0, vb_step_g in E1. cbn [andb] in E1.
+  destruct (minmax_pos L1) as [[under over]|]; [|discriminate].
+  destruct (nth_opt L1 over); [|discriminate]. destruct (nth_opt L1 under); [|discriminate].
+  destruct (nearest _ _ _ _ _ _ _) as [[c|]|e'| |] eqn:En; try discriminate.
+  + destruct (nth_opt _ c) as [[w id]|]; [|discriminate].
+    destruct (_ || _); [discriminate|]. destruct (Nat.ltb id (length p1)); [|discriminate].
+    destruct (nth_opt _ under); discriminate.
+  + exact (nearest_no_err _ _ _ _ _ _ _ _ En).
+Qed.
+
+(* matching lengths, non-negative weights: Ok (no error value, no panic, enough fuel: the fuel
+   1 + sum of squared loads is part of [vn_best]) *)
+Theorem vnbest_ok_in_contract : forall flt ws p, length ws = length p -> Forall (fun w => 0 <= w) ws ->
+  exists p' n, vn_best flt ws p = Ok (p', n).
+Proof.
+  intros flt ws p Hl Hnn. destruct (vn_best flt ws p) as [[p' n]|e|s|] eqn:E.
+  - eauto.
+  - exfalso. exact (vnbest_no_error flt ws p e Hl Hnn E).
+  - exfalso. exact (vnbest_no_panic flt ws p s E).
+  - exfalso. exact (vnbest_terminates flt ws p E).
+Qed.
